@@ -87,6 +87,9 @@ fn run_one(case: &J, text: &str, k: usize, ts: &J) -> J {
     let op_name = case["doc"]["ops"][0]["name"].as_str().unwrap_or("").to_string();
     let mut request = Request::new(text.to_string()).variables(exec::vars_from_json(&vars_json(&case["vars"]))).data(req_data.clone());
     if !op_name.is_empty() { request = request.operation_name(op_name); }
+    // two-step use of the API: the caller parses first (Request::parsed_query) and then executes; the parse hook
+    // must still run exactly once
+    if case["preparsed"].as_bool().unwrap_or(false) { let _ = request.parsed_query(); }
     let flavour = case["flavour"].as_str().unwrap_or("static");
     let result: Result<Result<Response, String>, String> = exec::catch(|| {
         if flavour == "static" {
